@@ -138,7 +138,12 @@ func (s *rawServer) ServeHTTP(w http.ResponseWriter, r *http.Request) {
 		return
 	}
 	s.mu.Lock()
-	s.cur, s.curRaw, s.curWS, s.curN = ws.UnderlyingConn(), ws.UnderlyingConn(), ws, n
+	under := ws.UnderlyingConn()
+	rawTCP := under
+	if tc, ok := under.(*tls.Conn); ok {
+		rawTCP = tc.NetConn() // wss: faults at the connection level hit the TCP connection
+	}
+	s.cur, s.curRaw, s.curWS, s.curN = under, rawTCP, ws, n
 	s.mu.Unlock()
 	s.r.log(Event{K: "session", N: n})
 	defer s.r.log(Event{K: "released", N: n})
@@ -346,9 +351,14 @@ func Replay(c Case) Result {
 	}
 	defer ln.Close()
 	srv := &rawServer{ln: ln, r: r, tls: c.Cfg.Transport == "tls"}
-	if c.Cfg.Transport == "ws" {
+	if c.Cfg.Transport == "ws" || c.Cfg.Transport == "wss" {
 		hsrv := &http.Server{Handler: srv}
-		go hsrv.Serve(ln)
+		if c.Cfg.Transport == "wss" {
+			hsrv.TLSConfig = hs.ServerTLS
+			go hsrv.ServeTLS(ln, "", "")
+		} else {
+			go hsrv.Serve(ln)
+		}
 		defer hsrv.Close()
 	} else {
 		go srv.serve()
@@ -364,6 +374,9 @@ func Replay(c Case) Result {
 	cfg.NewTransport = func(ctx context.Context) (lime.Transport, error) {
 		if c.Cfg.Transport == "ws" {
 			return lime.DialWebsocket(ctx, "ws://"+addr.String()+"/", nil, nil)
+		}
+		if c.Cfg.Transport == "wss" {
+			return lime.DialWebsocket(ctx, "wss://"+addr.String()+"/", nil, hs.ClientTLS)
 		}
 		return lime.DialTcp(ctx, addr, &lime.TCPConfig{ReadLimit: 4096, TLSConfig: hs.ClientTLS})
 	}
